@@ -195,6 +195,8 @@ CASES = [
      ("expect", ["T.«from» s", "a := s.a"])),
     ("itermut", "impl S { fn f(&mut self) { for b in self.v.iter_mut() { *b = 0; } } }", ("expect", ["v := (self.v.map (fun b => 0))"]), ("S", "f")),
     ("r-itermut", "impl S { fn f(&mut self) { for b in self.v.iter_mut() { *b = 0; self.a = 1; } } }", ("refuse", "iter_mut"), ("S", "f")),
+    ("unwrapres", "fn g(a: u64) -> Result<u64, ()> { if a > 3 { return Err(()); } Ok(a) }\nfn f(a: u64) -> Result<u64, ()> { let x = g(a).unwrap(); Ok(x + 1) }",
+     ("expect", ["Rs.unwrapOk (g a)"])),
     ("r-into-noimpl", "pub struct T { pub a: u64 }\nfn f(s: S) -> T { s.into() }", ("refuse", "without a known widening target")),
     ("r-into-wrongarg", "pub struct T { pub a: u64 }\npub struct W { pub a: u64 }\nimpl From<W> for T { fn from(s: W) -> Self { T { a: s.a } } }\nfn f(s: S) -> T { s.into() }",
      ("refuse", "without a known widening target")),
